@@ -139,6 +139,27 @@ func checkQueries(cfg bsiCfg, w *WB, workers []int, evals *int64, known func(*ev
 	}
 	lo, hi := indexRange(cfg, w)
 	inR := func(v *big.Int) bool { return v.Cmp(lo) >= 0 && v.Cmp(hi) <= 0 }
+	// queries are read-only: the index still holds exactly the model's map afterwards
+	unchanged := func(api, call string) *ev.Fail {
+		if g := w.B.Card(); g != uint64(len(m)) {
+			return fail(api, "query-modified-index", "after %s the index holds %d columns, want %d [%s, map %s]", call, g, len(m), cfg.Name, m.key())
+		}
+		for _, c := range append(append([]uint64{}, cfg.Cols...), 9, 100, 101, 102, 103, 104) {
+			want, in := m[c]
+			if g := w.B.ValueExists(c); g != in {
+				return fail(api, "query-modified-index", "after %s ValueExists(%d)=%v, want %v [%s, map %s]", call, c, g, in, cfg.Name, m.key())
+			}
+			if in && want.IsInt64() {
+				if g, ok := w.B.GetValue(c); !ok || g != want.Int64() {
+					return fail(api, "query-modified-index", "after %s GetValue(%d)=(%d,%v), want %v [%s, map %s]", call, c, g, ok, want, cfg.Name, m.key())
+				}
+			}
+		}
+		if s := w.B.PlaneLeak(); s != "" {
+			return fail(api, "query-modified-index", "after %s: %s [%s, map %s]", call, s, cfg.Name, m.key())
+		}
+		return nil
+	}
 	// constants: stored values +-1, extremes of the width
 	cset := map[string]*big.Int{lo.String(): lo, hi.String(): hi}
 	for _, v := range m {
@@ -339,8 +360,14 @@ func checkQueries(cfg bsiCfg, w *WB, workers []int, evals *int64, known func(*ev
 						return f
 					}
 				}
-				for _, f := range founds[2:] {
-					if got, ok := w.B.BatchEqualValues(par, ints, f.cols, false); ok {
+				for _, f := range founds {
+					if f.own {
+						continue
+					}
+					if got, ok := w.B.BatchEqualValues(par, ints, f.cols, f.nilF); ok {
+						if f := unchanged("BatchEqualValues", fmt.Sprintf("BatchEqualValues(%v, found=%s)", l, f.name)); f != nil && !known(f) {
+							return f
+						}
 						wantPairs := map[uint64]int64{}
 						for _, c := range f.cols {
 							for _, v := range l {
@@ -483,6 +510,9 @@ func checkQueries(cfg bsiCfg, w *WB, workers []int, evals *int64, known func(*ev
 			}
 			break
 		}
+	}
+	if f := unchanged("queries", "the query battery"); f != nil && !known(f) {
+		return f
 	}
 	atomic.AddInt64(evals, n)
 	return nil
